@@ -29,8 +29,7 @@ CheckOK(e) ==
         /\ Cardinality(X) = MinV(E, V, e.s, e.t)
         /\ inside = Reach(RemoveV(E, X), e.s)
 Next == /\ l <= Len(Rec)
-        /\ "panic" \notin DOMAIN Rec[l]
-        /\ CheckOK(Rec[l])
+        /\ ("panic" \notin DOMAIN Rec[l] /\ CheckOK(Rec[l])) = TRUE
         /\ l' = l + 1
 Spec == Init /\ [][Next]_l
 Accepted == LET d == TLCGet("stats").diameter IN
